@@ -12,7 +12,7 @@ from pysmt.environment import push_env, pop_env
 from ..core.runner import Result
 from ..core import histworld as H
 
-ALL = ["F%d" % i for i in range(1, 11)]
+ALL = ["F%d" % i for i in range(1, 14)]
 _REF = {}
 
 
@@ -123,7 +123,7 @@ def run_shard(args):
 def run(ctx):
     ctx.level = "model_checking"
     q = ctx.quick
-    event_names = ["F1", "F3", "F4", "F9"] if q else ["F1", "F3", "F4", "F6", "F8", "F9", "F10"]
+    event_names = ["F3", "F4", "F9", "F11"] if q else ["F1", "F3", "F4", "F6", "F8", "F9", "F10", "F11", "F13"]
     L = 2 if q else (3 if False else 2)
     events = H.query_events(event_names)
     ctx.rule = ("all histories of length <= %d over %d API events (build, type, simplify, substitute with 3 maps, "
